@@ -573,9 +573,46 @@ func (p foOf) FailureCached(key []byte) (error, bool) {
 }
 func (p foOf) Close() { p.f.VerifClose() }
 
+type foOfAny struct{ f *cache.FailoverOf[any] }
+
+func (p foOfAny) Get(ctx context.Context, key []byte, build func(ctx context.Context) (string, error)) (interface{}, error) {
+	return p.f.Get(ctx, key, func(ctx context.Context) (any, error) {
+		v, err := build(ctx)
+		if err != nil {
+			return nil, err
+		}
+
+		return v, nil
+	})
+}
+func (p foOfAny) KeyLocks() int   { return p.f.VerifKeyLocks() }
+func (p foOfAny) HasErrors() bool { return p.f.Errors != nil }
+func (p foOfAny) WriteFailure(ctx context.Context, key []byte, err error) {
+	_ = p.f.Errors.Write(ctx, key, err)
+}
+func (p foOfAny) ClearFailures() {
+	if p.f.Errors != nil {
+		p.f.Errors.DeleteAll(bg)
+	}
+}
+
+func (p foOfAny) FailureCached(key []byte) (error, bool) {
+	if p.f.Errors == nil {
+		return nil, false
+	}
+
+	v, err := p.f.Errors.Read(bg, key)
+	if err != nil {
+		return nil, false
+	}
+
+	return v, true
+}
+func (p foOfAny) Close() { p.f.VerifClose() }
+
 // foCfg is the generated Failover configuration.
 type foCfg struct {
-	variant         int // 0 Failover/ShardedMap, 1 Failover/SyncMap, 2 FailoverOf/ShardedMapOf
+	variant         int // index into variantNames
 	syncUpdate      bool
 	syncRead        bool
 	failHard        bool
@@ -587,7 +624,15 @@ type foCfg struct {
 	backendTTL      time.Duration
 }
 
-var variantNames = []string{"Failover/ShardedMap", "Failover/SyncMap", "FailoverOf/ShardedMapOf"}
+var variantNames = []string{
+	"Failover/ShardedMap", "Failover/SyncMap", "FailoverOf/ShardedMapOf",
+	// the non-generic backends also satisfy ReadWriterOf[any]; they report expiry with the non-generic error type
+	"FailoverOf[any]/ShardedMap", "FailoverOf[any]/SyncMap",
+}
+
+var variantKinds = []string{kindSharded, kindSync, kindShardedOf, kindSharded, kindSync}
+
+const nVariants = 5
 
 func (f foCfg) String() string {
 	return fmt.Sprintf("%s SyncUpdate=%v SyncRead=%v FailHard=%v MaxStaleness=%v FailedUpdateTTL=%v UpdateTTL=%v logger=%d stats=%v backendTTL=%v",
@@ -631,7 +676,7 @@ func newWorld(c *Case, cfg foCfg) *world {
 	w := &world{c: c, cfg: cfg, log: newRunLog(), ct: newCountTracker(), name: "fo", faultAtCall: -1}
 	w.s = newSched(c, w.log)
 
-	kind := []string{kindSharded, kindSync, kindShardedOf}[cfg.variant]
+	kind := variantKinds[cfg.variant]
 	var realStats cache.StatsTracker
 	if cfg.stats {
 		realStats = w.ct
@@ -667,7 +712,15 @@ func (w *world) attach() {
 	wrap := &beWrap{s: w.s, be: w.be, faultAtCall: w.faultAtCall}
 	w.wrap = wrap
 
-	if cfg.variant == 2 {
+	if cfg.variant >= 3 {
+		wrap.real = w.be.Raw().(cache.ReadWriter)
+		f := cache.NewFailoverOf[any](cache.FailoverConfigOf[any]{
+			Name: w.name, Backend: wrap,
+			FailedUpdateTTL: cfg.failedUpdateTTL, UpdateTTL: cfg.updateTTL, SyncUpdate: cfg.syncUpdate, SyncRead: cfg.syncRead,
+			MaxStaleness: cfg.maxStaleness, FailHard: cfg.failHard, Logger: logger, Stats: stats,
+		}.Use)
+		w.fe = foOfAny{f}
+	} else if cfg.variant == 2 {
 		real := w.be.Raw().(*cache.ShardedMapOf[string])
 		f := cache.NewFailoverOf[string](cache.FailoverConfigOf[string]{
 			Name: w.name, Backend: &beWrapOf{w: wrap, real: real},
